@@ -4,7 +4,12 @@ specification Lang/BoolSurface.v).
 Correspondence: for ALL boolean skeletons over <= 4 (thorough: 5) atoms, every truth assignment:
 truth table of the really parsed filter (ast.Parse + EvalBool) vs. the extracted model vs. the
 surface semantics; token kinds of the real lexer vs. the model lexer; re-spellings (keyword case,
-white space, redundant parentheses), the same skeletons over comparisons and constants."""
+white space, redundant parentheses), the same skeletons over comparisons and constants.
+Stream k (harness c12kw.go): queries over a real boltz store whose atoms use every keyword / word operator
+(in, between, contains, icontains and their not-forms, true/false/null, anyOf/allOf/count/isEmpty, from..where,
+sort by/asc/desc/skip/limit/none) re-spelled in letter case and in the white space at every place the grammar has
+WS+ / WS* / the single WS of `not in` - Store.QueryIds of the re-spelling vs. the canonical spelling; the model
+(Lang/WordOps.v: lex_full + norm, op_negated) says the two texts are the same token stream up to spelling."""
 import json
 import os
 
@@ -51,6 +56,21 @@ def features(pre):
     return has_not, mixed, and_then_or
 
 
+def show_result(r):
+    """<count>:<hex id>,... -> readable"""
+    if ":" not in r:
+        return {"E": "rejected", "P": "panic"}.get(r, r)
+    cnt, ids = r.split(":", 1)
+    names = [unhex(x).decode("latin-1") for x in ids.split(",")] if ids not in ("", "-") else []
+    return "count=%s ids=[%s]" % (cnt, ",".join(names))
+
+
+K_KEYS = {"op": "C12:word-operator-spelling", "kw": "C12:keyword-case", "ws": "C12:whitespace", "mix": "C12:respelling"}
+K_WHAT = {"op": "letter case / white space inside a word operator (in, between, contains, icontains, not ...)",
+          "kw": "letter case of a keyword", "ws": "white space where the grammar allows it",
+          "mix": "letter case of keywords and white space where the grammar allows it"}
+
+
 def main(argv):
     c = vlib.Check(PID, argv)
     c.cov["trusted_base"] = [
@@ -59,7 +79,10 @@ def main(argv):
         "(generated rule boolExpr(_p) incl. adaptive prediction resolved to 'continue'), Lang/Listener.v (stack machine, typed And/Or/Not, EvalBool)",
         "specification Lang/BoolSurface.v (surface syntax, or-of-ands semantics, spellings)",
         "extraction (ExtrOcamlBasic only) + extraction/c12_driver.ml + drv_common.ml",
-        "Go harness cmd/storageharness/c12.go (enumerator of skeletons, spellers, boolean/int symbol tables) and this comparison",
+        "Go harness cmd/storageharness/c12.go (enumerator of skeletons, spellers, boolean/int symbol tables), c12kw.go (query templates with "
+        "spelling sites, the people/places dataset in a real bbolt file) and this comparison",
+        "hand-written model Lang/WordOps.v (op_negated = the listener's strings.Contains(strings.ToLower(text), \"not\"); norm = token stream up to spelling) "
+        "over Lang/LexerFull.v (all token rules as regular expressions; compared with the real lexer on every re-spelling)",
         "ANTLR runtime (ATN interpreter, adaptive prediction): compared on every enumerated skeleton, not verified",
     ]
     c.assumptions = [
@@ -97,8 +120,40 @@ def main(argv):
     distinct = set()
     disagreements = []
     evaluations = 0
+    kstats = dict(cases=0, with_word_operator=0, with_negated_word_operator=0)
     for case, i, m in zip(cases, impl, modl):
         cf, fi, fm = case.split(), i.split(), m.split()
+        if cf[0] == "K":
+            # ---- stream k: a query and a re-spelling of it (keyword case / white space only) on a real store
+            stream, cls, store = cf[1], cf[2], cf[3]
+            canon, resp = unhex(cf[4]).decode("latin-1"), unhex(cf[5]).decode("latin-1")
+            ikinds, ierrs, rcanon, rresp = fi[1], fi[2], fi[3], fi[4]
+            mkinds, mdrops, msame, mfc, mfr = fm[1], fm[2], fm[3], fm[4], fm[5]
+            evaluations += 1
+            distinct.add(case)
+            kstats["cases"] += 1
+            kstats["with_word_operator"] += mfc != "-"
+            kstats["with_negated_word_operator"] += "1" in mfc
+            rep = dict(case=case, impl=i, model=m, store=store, canonical_query=canon, respelled_query=resp,
+                       result_canonical=show_result(rcanon), result_respelled=show_result(rresp),
+                       model_negation_flags_of_word_operators=dict(canonical=mfc, respelled=mfr),
+                       note="dataset: harness c12kw.go c12kPeople / c12kPlaces; result = Store.QueryIds (ids in order, count)")
+            if msame != "1" or mfc != mfr:
+                # the model does not regard the two texts as one query: generator / model problem, not a finding
+                disagreements.append((case, i, m, "normal form of the re-spelling (Lang/WordOps.v norm)"))
+                continue
+            if rcanon in ("E", "P"):
+                c.violation("C12:valid-query-rejected" if rcanon == "E" else "C12:panic",
+                            "valid query %r (store %s) %s" % (canon, store, "is rejected" if rcanon == "E" else "panics"), rep)
+                continue
+            if rresp != rcanon:
+                c.violation(K_KEYS.get(cls, "C12:respelling"),
+                            "query %r and its re-spelling %r (differs only in: %s) give different results: %s vs %s" % (
+                                canon, resp, K_WHAT.get(cls, cls), show_result(rcanon), show_result(rresp)), rep)
+                continue
+            if ikinds != mkinds or ierrs != mdrops:
+                disagreements.append((case, i, m, "token kinds of the re-spelled query (Lang/LexerFull.v)"))
+            continue
         kind, stream, mode, hfilter, pre = cf[0], cf[1], cf[2], cf[3], cf[4]
         filt = unhex(hfilter)
         ikinds, ierrs, itt = fi[1], fi[2], fi[3]
@@ -151,6 +206,7 @@ def main(argv):
             vlib.log("REPLAY case=%s\n  impl =%s\n  model=%s" % (case, i, m))
     c.cov["evaluations"] = evaluations
     c.cov["cases"] = len(cases)
+    c.cov["stream_k"] = kstats
     c.cov["distinct_nontrivial"] = len(distinct)
     c.cov["disagreements_checked"] = len(disagreements)
     try:
@@ -161,17 +217,24 @@ def main(argv):
     c.cov["rule"] = ("stream x: ALL sentences of the boolExpr skeleton grammar with <= %s atoms, <= 2 parenthesis pairs, <= 2 nots (thorough adds <= 3/3 on <= 4 atoms), "
                      "canonical spelling, every truth assignment; a slice again with atoms rendered as int comparisons (between/in/not in/...) and as true/false constants; "
                      "stream r: random keyword case / white-space kinds and amounts / keyword-like atom names, compared with the canonical spelling; "
-                     "stream w: one redundant parenthesis pair added; stream g: random longer chains with repeated atoms. "
+                     "stream w: one redundant parenthesis pair added; stream g: random longer chains with repeated atoms; "
+                     "stream k: queries over a real store (people/places) built from atom templates covering every keyword and word operator, "
+                     "k1 = ONE spelling site (a keyword's letter case, or the white space at one WS+/WS*/single-WS place incl. inside not in/between/contains/icontains) "
+                     "changed at a time - every site of every atom, every variant; k2 = all sites in one uniform style; k3 = random skeletons + sort/skip/limit, all sites random; "
+                     "oracle: same QueryIds result as the canonical spelling. "
                      "evaluations = truth-table entries compared; non-trivial = has not/parentheses/mixed connectives/>1 atom/re-spelling; distinct by case text"
                      % (5 if c.thorough else 4))
     idx = sorted(set((0, min(3, len(cases) - 1), len(cases) // 2, len(cases) - 1)))
     c.cov["samples"] = [dict(case=cases[k], impl=impl[k], model=modl[k]) for k in idx]
+    if st.get("k_atoms_negation_unobservable", 0) or st.get("k_canonical_rejected", 0):
+        disagreements.append(("-", "-", "-", "stream k dataset: %s word-operator atoms whose negation is unobservable, %s canonical queries rejected"
+                              % (st.get("k_atoms_negation_unobservable"), st.get("k_canonical_rejected"))))
     if disagreements and not c.violations:
         case, i, m, what = disagreements[0]
         c.violation("C12:correspondence", "model and implementation differ (%s) on %d cases although the property holds on them, e.g. %s: impl %s model %s"
                     % (what, len(disagreements), case, i, m),
                     dict(correspondence="Lang/Lexer.v + Lang/BoolGrammar.v + Lang/Listener.v vs zitiql lexer/parser + ast listener",
-                         theorems=["precedence_and_over_or", "keyword_case_insensitive"], case=case, impl=i, model=m), no_input=True)
+                         theorems=["precedence_and_over_or", "keyword_case_insensitive", "word_operator_spelling"], case=case, impl=i, model=m), no_input=True)
     if not proof_ok:
         c.violation("C12:proof", "proof obligation no longer checks: %s" % json.dumps(c.proof_broken)[:600],
                     dict(broken=c.proof_broken), no_input=True)
